@@ -48,6 +48,10 @@ def c13_family(tier, sd=0):
     add([("u", 3), ("i", 13), ("u", 2)])
     add([("u", 3)])
     add([("u", 4), ("enum", "E5"), ("enum", "E1"), ("i", 9)], E)
+    add([("u", 8), ("enum", "E0"), ("u", 8)], {"E0": mk_enum("E0", 0)})
+    # the largest value belongs neither to the alphabetically last nor to the last declared enumerator
+    add([("enum", "EM"), ("u", 8), ("enum", "EQ"), ("u", 5)],
+        {"EM": [("EM_A", 0), ("EM_M", 255), ("EM_Z", 1)], "EQ": [("EQ_C", 2), ("EQ_B", 5), ("EQ_D", 0)]})
     add([("u", 4), ("struct", "In"), ("i", 9)], structs=[In5])
     add([("arr", ("u", 6), 3), ("u", 1)])
     add([("u", 3), ("opt", ("i", 13)), ("dyn", ("u", 5))])
